@@ -128,3 +128,57 @@ def lca_domain(source: Any, target: Any) -> Optional[Any]:
             return cur
         cur = cur.parent
     return None
+
+
+# ---------------------------------------------------------------------------
+# C20: event descriptors
+# ---------------------------------------------------------------------------
+
+INTERNAL_PREFIXES = ("done.", "error.", "after.", "xstate.")
+
+
+def descriptor_ref(keys: Sequence[str], ev: str) -> List[str]:
+    """Keys of one state's ``on`` map that match event type ``ev``, most
+    specific first: the identical key; then partial descriptors 'p.*' (where
+    'p.*' matches 'p' itself and anything beginning 'p.') by decreasing prefix
+    length; then '*'. Engine-internal events match their identical key only.
+    Written from the property statement, not from the library."""
+    out: List[str] = []
+    if len(keys) == 0 or len(ev) == 0:
+        return out
+    for k in keys:
+        if k == ev:
+            out.append(k)
+            break
+    for pref in INTERNAL_PREFIXES:
+        if ev.startswith(pref):
+            return out
+    cands: List[str] = []
+    for k in keys:
+        if k == "*" or len(k) < 2 or k[-2:] != ".*":
+            continue
+        p = k[: len(k) - 2]
+        if ev == p or ev.startswith(p + "."):
+            cands.append(k)
+    # decreasing prefix length (stable for equal lengths = declaration order)
+    ordered: List[str] = []
+    while cands:
+        best = 0
+        for i in range(1, len(cands)):
+            if len(cands[i]) > len(cands[best]):
+                best = i
+        ordered.append(cands.pop(best))
+    out.extend(ordered)
+    for k in keys:
+        if k == "*":
+            out.append("*")
+            break
+    return out
+
+
+def dedup(seq: Sequence[Any]) -> List[Any]:
+    out: List[Any] = []
+    for x in seq:
+        if x not in out:
+            out.append(x)
+    return out
